@@ -111,6 +111,7 @@ func models(tier string) []*modelRun {
 		{name: "bug.closeNoStatesWait", workers: 2, expect: "DbClosedMeansNoStates", what: "seeded: user.close forgets statesWG.Wait"},
 		{name: "bug.doneNoRelease", workers: 2, expect: "deadlock", what: "seeded: Session.done does not release the state"},
 		{name: "bug.idleNotStopped", workers: 2, expect: "deadlock", what: "seeded: IDLE sender not stopped"},
+		{name: "bug.sendIgnoresQuit", workers: 2, expect: "deadlock", what: "seeded: updateInjector.send does not select on forwardQuitCh (directed round 9101 is the real-code counterpart)"},
 	}
 	if tier == "thorough" {
 		ms = append(ms,
@@ -494,7 +495,8 @@ func run(r *ev.Run, tier, replay string) {
 		}
 	}
 	// one more child for the round that cancels the Serve context before Close (a hang there costs its watchdog only)
-	for _, rs := range [][]int{a, b, {9000}} {
+	// ... and one for the directed rounds (the concrete counterparts of the as-code witnesses of the specification)
+	for _, rs := range [][]int{a, b, {9000}, directedRounds} {
 		wg.Add(1)
 		go func(rs []int) {
 			defer wg.Done()
